@@ -918,7 +918,9 @@ func checkHist(hc histCase) harness.Outcome {
 					return fail(i, fmt.Sprintf("the step's value is %s, want %s", jd.String(), e.result))
 				}
 			}
-			if e.setExpando != "" {
+			if e.setExpando != "" && c.Kind != "field" {
+				// (a field container is wrapped afresh on every access: script-only properties of
+				// the transient wrapper are not part of any contents)
 				st.expando[e.setExpando] = e.setExpVal
 			}
 			if e.delExpando != "" {
